@@ -16,11 +16,23 @@ ENV_KEYS_PREFIXES = ("APP_", "JSONARGPARSE_DEFAULT_ENV")
 META = {"__path__", "__orig__", "__default_config__"}
 
 
-def doc_to_dict(doc):
+STR_KINDS = ("str", "optstr")
+DECOY = {"scalar": 424242, "str": 424242, "optstr": 424242, "list": [424242], "dict": {"zz": 424242}}
+
+
+def pyval(v, kind):
+    """The Python value of a generated value: tokens of a str-typed key are strings, token 0 the empty string."""
+    if kind in STR_KINDS and isinstance(v, int):
+        return "" if v == 0 else "t%d" % v
+    return v
+
+
+def doc_to_dict(doc, kinds=None):
     """The nested mapping for a list of assignments: inserted in order, 'key+' for an append."""
     d = {}
     for asg in doc:
         key, op, value = asg[0], asg[1], asg[2]
+        value = pyval(value, (kinds or {}).get(key))
         parts = key.split(".")
         if op == "append":
             parts[-1] += "+"
@@ -33,10 +45,10 @@ def doc_to_dict(doc):
     return d
 
 
-def render_doc(doc, fmt):
+def render_doc(doc, fmt, kinds=None):
     import yaml
 
-    d = doc_to_dict(doc)
+    d = doc_to_dict(doc, kinds)
     if fmt == "json":
         return json.dumps(d)
     if fmt == "yaml_flow":
@@ -44,7 +56,8 @@ def render_doc(doc, fmt):
     return yaml.safe_dump(d, sort_keys=False, default_flow_style=False)
 
 
-def scalar_text(v):
+def scalar_text(v, kind=None):
+    v = pyval(v, kind)
     return json.dumps(v, separators=(",", ":")) if isinstance(v, (list, dict)) else str(v)
 
 
@@ -54,9 +67,15 @@ def env_name(prefix, key):
     return (prefix.upper() + "_" + name) if prefix else name
 
 
-def canon(v):
+def canon(v, kind=None):
     if v is None:
         return None
+    if kind in STR_KINDS:
+        if v == "":
+            return {"tok": 0}
+        if isinstance(v, str) and v[:1] == "t" and v[1:].isdigit() and v[1:2] != "0":
+            return {"tok": int(v[1:])}
+        return {"bad": type(v).__name__}
     if isinstance(v, bool):
         return {"bad": "bool"}
     if isinstance(v, int):
@@ -73,7 +92,15 @@ def run_case(case, root):
 
     from jsonargparse import ActionConfigFile, ArgumentParser
 
-    types = {"scalar": int, "list": List[int], "dict": Dict[str, int]}
+    from typing import Optional
+
+    types = {"scalar": int, "str": str, "optstr": Optional[str], "list": List[int], "dict": Dict[str, int]}
+    sub = case.get("sub")
+    kinds = {d["key"]: d["kind"] for d in case["parser"]}
+    subkinds = {}
+    if sub:
+        subkinds = {d["key"]: d["kind"] for d in sub["decls"]}
+        kinds.update({sub["name"] + "." + k: v for k, v in subkinds.items()})
     os.makedirs(root)
     for k in list(os.environ):
         if k.startswith(ENV_KEYS_PREFIXES) or k in case.get("_envnames", ()):
@@ -93,7 +120,7 @@ def run_case(case, root):
         for i, pat in enumerate(case["patterns"]):
             for m in pat["matches"]:
                 with open(os.path.join(root, m["name"]), "w") as f:
-                    f.write(render_doc(m["doc"], m["fmt"]) if m["doc"] else m.get("blank", ""))
+                    f.write(render_doc(m["doc"], m["fmt"], kinds) if m["doc"] else m.get("blank", ""))
             patterns.append(os.path.join(root, pat["pattern"]))
 
         prefix_mode = case["env_prefix"]
@@ -116,8 +143,8 @@ def run_case(case, root):
             if case.get("stage_at") is not None and n == case["stage_at"]:
                 # two-stage parsing: a first environment-enabled parse while only part of the arguments exists
                 try:
-                    parser.parse_env({env_name(prefix, dd["key"]): scalar_text({"scalar": 424242, "list": [424242], "dict": {"zz": 424242}}[dd["kind"]])
-                                      for dd in decls[:n]}, defaults=False)
+                    parser.parse_env({env_name(prefix, dd["key"]): scalar_text(DECOY[dd["kind"]], dd["kind"]) for dd in decls[:n]},
+                                     defaults=False)
                 except BaseException as ex:  # noqa: BLE001 - the warm-up answer is not what is observed
                     if isinstance(ex, KeyboardInterrupt):
                         raise
@@ -127,26 +154,46 @@ def run_case(case, root):
                 default = d["default"]
                 if isinstance(default, (list, dict)):
                     default = json.loads(json.dumps(default))
-                parser.add_argument("--" + d["key"], type=types[d["kind"]], default=default)
+                parser.add_argument("--" + d["key"], type=types[d["kind"]], default=pyval(default, d["kind"]))
+
+        # one level of subcommands: the chosen one (its keys are observed as "<name>.<key>") and a bystander
+        if sub:
+            subparsers = {}
+            for nm, sdecls, has_cfg in [(sub["name"], sub["decls"], sub.get("has_cfg")), (sub["other"]["name"], sub["other"]["decls"], False)]:
+                sp = ArgumentParser(exit_on_error=False)
+                if has_cfg:
+                    sp.add_argument("--cfg", action=ActionConfigFile)
+                for d in sdecls:
+                    default = d["default"]
+                    if isinstance(default, (list, dict)):
+                        default = json.loads(json.dumps(default))
+                    sp.add_argument("--" + d["key"], type=types[d["kind"]], default=pyval(default, d["kind"]))
+                subparsers[nm] = sp
+            subcommands = parser.add_subcommands()
+            for nm in (sorted(subparsers) if sub.get("sorted") else [sub["name"], sub["other"]["name"]]):
+                subcommands.add_subcommand(nm, subparsers[nm])
 
         # environment
         environ = {}
         nfile = [0]
 
-        def cfg_value(doc, how, fmt):
+        def cfg_value(doc, how, fmt, kinds=kinds):
             if how == "string":
-                return render_doc(doc, "json" if fmt == "yaml" else fmt).strip()
+                return render_doc(doc, "json" if fmt == "yaml" else fmt, kinds).strip()
             nfile[0] += 1
             path = os.path.join(root, "cfg_%d.%s" % (nfile[0], "json" if fmt == "json" else "yaml"))
             with open(path, "w") as f:
-                f.write(render_doc(doc, fmt))
+                f.write(render_doc(doc, fmt, kinds))
             return path
 
         if case["envcfg"] is not None:
             e = case["envcfg"]
             environ[env_name(prefix, "cfg")] = envcfg_value = cfg_value(e["doc"], e["as"], e["fmt"])
         for key, value in case["envvars"]:
-            environ[env_name(prefix, key)] = scalar_text(value)
+            environ[env_name(prefix, key)] = scalar_text(value, kinds[key])
+        if sub:
+            for key, value in sub["envvars"]:
+                environ[env_name(prefix, sub["name"] + "." + key)] = scalar_text(value, subkinds[key])
 
         entry = case["entry"]
         env_arg = case["env_arg"]
@@ -157,14 +204,20 @@ def run_case(case, root):
         else:
             # an explicit mapping replaces the process environment completely: fill os.environ with decoy values
             # for every declared key so that any fall-back to os.environ (e.g. for an empty mapping) shows
-            decoy = {"scalar": 424242, "list": [424242], "dict": {"zz": 424242}}
             for d in decls:
-                setenv(env_name(prefix, d["key"]), scalar_text(decoy[d["kind"]]))
+                setenv(env_name(prefix, d["key"]), scalar_text(DECOY[d["kind"]], d["kind"]))
 
         if entry["kind"] == "args":
             argv = []
             cfg_paths = {}   # file id -> path, for a config file that is given more than once
-            for it in entry["argv"]:
+            items = [(it, kinds) for it in entry["argv"]]
+            if sub:
+                # the subcommand token, then the items addressed to the subcommand's parser (keys relative to it)
+                items += [(None, None)] + [(it, subkinds) for it in sub["argv"]]
+            for it, ikinds in items:
+                if it is None:
+                    argv.append(sub["name"])
+                    continue
                 if "cfg" in it:
                     fid = it.get("fid")
                     if fid == "envcfg":
@@ -172,7 +225,7 @@ def run_case(case, root):
                     elif fid is not None and fid in cfg_paths:
                         val = cfg_paths[fid]             # the same file (same path) given again
                     else:
-                        val = cfg_value(it["cfg"], it["as"], it["fmt"])
+                        val = cfg_value(it["cfg"], it["as"], it["fmt"], ikinds)
                         if fid is not None:
                             cfg_paths[fid] = val
                     argv += ["--cfg=" + val] if it["style"] == "eq" else ["--cfg", val]
@@ -180,7 +233,7 @@ def run_case(case, root):
                 a = it["asg"]
                 key, op = a[0], a[1]
                 if op == "set":
-                    opt, text = "--" + key, scalar_text(a[2])
+                    opt, text = "--" + key, scalar_text(a[2], ikinds[key])
                 elif op == "append":
                     opt, text = "--" + key + "+", scalar_text(a[2])
                 else:
@@ -190,15 +243,20 @@ def run_case(case, root):
         elif entry["kind"] == "env":
             res = parser.parse_env(environ) if use_dict else parser.parse_env()
         elif entry["kind"] == "string":
-            res = parser.parse_string(render_doc(entry["doc"], entry["fmt"]), env=env_arg)
+            res = parser.parse_string(render_doc(entry["doc"], entry["fmt"], kinds), env=env_arg)
         elif entry["kind"] == "object":
-            res = parser.parse_object(doc_to_dict(entry["doc"]), env=env_arg)
+            res = parser.parse_object(doc_to_dict(entry["doc"], kinds), env=env_arg)
         else:
             raise ValueError(entry["kind"])
 
-        declared = {d["key"] for d in decls}
-        values = [canon(res.get(d["key"])) for d in decls]
-        extra = sorted(k for k in res.keys() if k not in declared and k != "cfg" and k.split(".")[-1] not in META)
+        observed = [(d["key"], d["kind"]) for d in decls]
+        ignore = {"cfg"}
+        if sub:
+            observed += [(sub["name"] + "." + d["key"], d["kind"]) for d in sub["decls"]]
+            ignore |= {"subcommand", sub["name"] + ".cfg"}
+        declared = {k for k, _ in observed}
+        values = [canon(res.get(k), kind) for k, kind in observed]
+        extra = sorted(k for k in res.keys() if k not in declared and k not in ignore and k.split(".")[-1] not in META)
         return {"values": values, "extra": extra}
     except BaseException as ex:  # noqa: BLE001 - SystemExit included: every failure is an observation
         if isinstance(ex, KeyboardInterrupt):
